@@ -2,7 +2,7 @@ SPECIFICATION Spec
 CONSTANTS
   NSym = 4
   MinLen = 1
-  MaxLen = 6
+  MaxLen = 7
   Mode = "prefix"
   Stems = "all"
 INVARIANTS Found SharesGram ScoreSafe
